@@ -26,6 +26,11 @@ def stepLine (s : St) (line : String) : St × String :=
   | ["case", "bpnest", outer, inner] => match arg outer, arg inner with
     -- the wrapper the script talks to is rooted at `inner`; its source is rooted at `outer`
     | some o, some i => ({ m := MemFs.init, roots := [i, o] }, "case") | _, _ => (s, "bad-op")
+  -- `bpnl`, `bpnlnest`: the same stacks over a source without the optional Lstater interface
+  | ["case", "bpnl", d] => match arg d with
+    | some d => ({ m := MemFs.init, roots := [d] }, "case") | none => (s, "bad-op")
+  | ["case", "bpnlnest", outer, inner] => match arg outer, arg inner with
+    | some o, some i => ({ m := MemFs.init, roots := [i, o] }, "case") | _, _ => (s, "bad-op")
   | "case" :: _ => ({ m := MemFs.init, roots := [], modelled := false }, "case")
   | toks =>
     if !s.modelled then (s, "unmodelled") else
@@ -41,6 +46,8 @@ def stepLine (s : St) (line : String) : St × String :=
         | some op => let (m', r) := s.m.step op; ({ s with m := m' }, renderRes r)
         | none => (s, "unmodelled")
       else
+        -- LstatIfPossible: RealPath, then the source's Lstat (or Stat); MemMapFs has no links, so it is Stat
+        let toks := if t0 = "lstat" then "stat" :: rest else toks
         match parseOp toks with
         | some op => let (m', r) := stepFn s.roots s.m op; ({ s with m := m' }, renderRes r)
         | none => (s, "unmodelled")
